@@ -269,3 +269,43 @@ End RForest.
 (* ------------------------------------------------------------------------------------------ *)
 Definition oob_members {Tr} (trees : list Tr) (masks : list (list bool)) (i : nat) : list Tr :=
   map fst (filter (fun tm => negb (nth i (snd tm) true)) (combine trees masks)).
+
+(* ------------------------------------------------------------------------------------------ *)
+(* the features tried at a node: find_best_cutoff's                                            *)
+(*   let mut variables = (0..n_attr).collect(); if mtry < n_attr { variables.shuffle(rng) }    *)
+(*   for variable in variables.iter().take(mtry)                                               *)
+(* with rand 0.8's SliceRandom::shuffle (library code outside /repo, transliterated from       *)
+(* rand-0.8.x/src/seq/mod.rs):                                                                 *)
+(*   for i in (1..self.len()).rev() { self.swap(i, gen_index(rng, i + 1)); }                   *)
+(* `draws` = the values gen_index returned, in order.  NOT executed by the correspondence (the *)
+(* hooks record the resulting feature lists, not the shuffle's draws); it is the subject of    *)
+(* C06_shuffle_is_permutation / C06_feature_subsample_valid only.                              *)
+(* ------------------------------------------------------------------------------------------ *)
+(* slice::swap(i, j): panics when an index is out of bounds *)
+Definition swap_at {A} (l : list A) (i j : nat) : option (list A) :=
+  match nth_error l i, nth_error l j with
+  | Some a, Some b => Some (set_nth (set_nth l i b) j a)
+  | _, _ => None
+  end.
+
+(* the iterations i, i-1, .., 1 of the loop; gen_index(rng, i+1) = gen_range(0..i+1) returns j <= i *)
+Fixpoint fy_loop {A} (i : nat) (l : list A) (draws : list nat) : option (list A) :=
+  match i with
+  | 0 => Some l
+  | S i' =>
+      match draws with
+      | [] => None
+      | j :: rest =>
+          if j <=? i then
+            match swap_at l i j with
+            | None => None
+            | Some l' => fy_loop i' l' rest
+            end
+          else None
+      end
+  end.
+Definition shuffle_model {A} (l : list A) (draws : list nat) : option (list A) :=
+  fy_loop (length l - 1) l draws.
+
+Definition node_vars (p mtry : nat) (draws : list nat) : option (list nat) :=
+  option_map (firstn mtry) (if mtry <? p then shuffle_model (seq 0 p) draws else Some (seq 0 p)).
